@@ -14,6 +14,7 @@ import (
 	"net/url"
 	"os"
 	"path/filepath"
+	"strings"
 
 	"github.com/rs/zerolog"
 	"github.com/rs/zerolog/log"
@@ -82,6 +83,17 @@ func BaseConfig(tokenType string) *config.Config {
 			kc.PgpCertificate = filepath.Join(KeyDir, k+".pgp")
 		}
 		cfg.Keys[k] = kc
+	}
+	// rsaAbig: key rsaA configured with a certificate file that lists ten
+	// certificates (its chain plus unrelated ones, as a bundle often does): its
+	// PKCS#7 signatures are well over 4 KiB, the size at which a compound-file
+	// stream moves from the mini stream to regular sectors.
+	cfg.Keys["rsaAbig"] = &config.KeyConfig{
+		Token:           "tok",
+		KeyFile:         filepath.Join(KeyDir, "rsaA.key"),
+		X509Certificate: filepath.Join(KeyDir, "rsaA.bigchain.crt"),
+		PgpCertificate:  filepath.Join(KeyDir, "rsaA.pgp"),
+		Roles:           []string{"r"},
 	}
 	if err := cfg.Normalize(""); err != nil {
 		panic(err)
@@ -277,6 +289,7 @@ func VerifyWith(mod *signers.Signer, f *os.File, opts signers.VerifyOpts) ([]*si
 
 // LeafOf returns the configured leaf certificate of a fixture key.
 func LeafOf(key string) *x509.Certificate {
+	key = strings.TrimSuffix(key, "big")
 	blob, err := os.ReadFile(filepath.Join(KeyDir, key+".leaf.crt"))
 	if err != nil {
 		panic(err)
